@@ -260,6 +260,8 @@ async def factories_that_use_the_context():
 @scenario
 async def component_tree():
     import functools
+
+    import anyio
     from asphalt.core import (Component, Context, add_resource, add_resource_factory, current_context, get_resource, get_resource_nowait, get_resources, start_component,
                               start_service_task)
 
@@ -311,10 +313,12 @@ async def component_tree():
             self.add_component("provider/named", Provider)
 
         async def start(self):
+            stash["component context"] = current_context()      # kept beyond its life time (below)
             get_resources(A)
             await get_resource(C, "first")
             await _quiet(get_resource_nowait, C, "second")
 
+    stash = {}
     async with Context() as ctx:
         await start_component(Root)
         ctx.get_resources(A)
@@ -322,6 +326,13 @@ async def component_tree():
         async with Context() as child:
             await _quiet(child.get_resource, C, "first")
             child.get_resources(C)
+    old = stash["component context"]
+    with anyio.move_on_after(1):
+        await _quiet(old.get_resource, A, "never_published")     # the context is closed: refused, not waited for
+    with anyio.move_on_after(1):
+        await _quiet(old.get_resource, A, "first")
+    await _quiet(old.get_resource_nowait, A, "first")
+    await _quiet(old.get_resource, A, "never_published", optional=True)
 
 
 def main():
@@ -331,11 +342,13 @@ def main():
         for backend in ("asyncio", "trio"):
             _verif.reset()
             start = len(_verif.TRACE)
+            ended = "normally"
             try:
                 anyio.run(f, backend=backend)
             except BaseException as e:  # noqa: BLE001
-                print(f"scenario {f.__name__} ended with {type(e).__name__}: {e}", file=sys.stderr)
-            out.append({"test": f"{f.__name__}[{backend}]", "events": _verif.TRACE[start:]})
+                ended = f"{type(e).__name__}: {e}"[:200]
+                print(f"scenario {f.__name__} ended with {ended}", file=sys.stderr)
+            out.append({"test": f"{f.__name__}[{backend}]", "events": _verif.TRACE[start:], "ended": ended})
     with open(os.environ["VERIF_TRACE_OUT"], "w") as fh:
         json.dump(out, fh)
 
